@@ -9,7 +9,7 @@ from ..registry import register
 
 @register("C23")
 def check(ctx):
-    core.build_harness(ctx)
+    core.build_harness(ctx, "vh")
     ctx.level = "model_checking"
     ctx.assumptions += [
         "rename(2) of a directory is atomic and a failed rename has no effect (POSIX); recursive removals "
